@@ -58,6 +58,11 @@ CHECKS = {
             'Inputs are generated as programs that build nested dict/list/tuple/set/frozenset structures by referring to earlier objects (aliasing/DAGs by construction, hashability enforced constructively) plus patch instructions that close cycles. remap output is compared with an independent recursive reference: same types, dict key order, sequence order, set members, identical sharing (bijection of node identities), identical visit call log; default callbacks give an equal copy sharing no mutable container; the input snapshot (structure + identities) is unchanged; every research (path, value) is fetched again with get_path (identity). Paths through sets are a recorded known finding (enumeration index is not subscriptable).',
             'Trusts the 35-line recursive reference; cycles whose back-edge targets a tuple/frozenset under construction are only checked for termination/type/non-mutation; visit functions are decision tables, not arbitrary code.',
             'DESIGN.md section 2, C08'),
+    'C15': ('exploration',
+            'Hypothesis-generated parameter tuples and random draws (random.random replaced by generated values) against the stated recurrence; targeted class of stops at floating-point neighbours of start*factor^n',
+            'Valid parameters: the yielded list must equal the reference recurrence (start, then min(prev*factor, stop); 0 followed by min(1, stop)) value for value, be non-decreasing and capped, have exactly count values (>= 260 lazily for repeat), end at stop for the default count, and backoff == list(backoff_iter). Jitter: every value within [b, b(1-j)] (4 ulp tolerance), equal to b for draw 0.0, and computed from the un-jittered base (no feedback). Invalid parameters (7 classes) must raise ValueError on the first next() with nothing yielded. A third of the cases put stop at start*factor^n (repeated multiplication) -1..+2 ulps, where the logarithm-derived default count rounds.',
+            'Finite floats; factor == 1 with default count and default counts above 2000 are not generated.',
+            'DESIGN.md section 2, C15'),
 }
 
 NOT_YET = 'check not built yet in this revision of /verif (work in progress; see DESIGN.md section 8)'
